@@ -36,6 +36,8 @@ func scenarioWire(c *vrun.Ctx) {
 		answer  func(req *http.Request) (string, bool)
 		judge   func(resp *vnet.Resp, heads []string) []string
 	}
+	// method and body of the cases that are not a bare GET
+	wireReq := map[string][2]string{"get-with-body-answer-unstorable": {"GET", "payload"}, "post-answered-416": {"POST", "payload"}}
 	sent := func(h vnet.H) map[string]string {
 		m := map[string]string{"Host": originHost}
 		for _, kv := range h {
@@ -118,12 +120,35 @@ func scenarioWire(c *vrun.Ctx) {
 			}
 			return nil
 		}},
+		// requests with a body whose first answer the proxy does not keep: the origin's answer to the
+		// request the client sent must reach the client (not an error made up after a second attempt
+		// that has no body left to send)
+		{"get-with-body-answer-unstorable", vnet.H{{"User-Agent", "wire-client/1"}, {"Accept-Encoding", "identity"}}, func(req *http.Request) (string, bool) {
+			return "HTTP/1.1 200 OK\r\nCache-Control: no-store\r\nContent-Type: text/plain\r\nContent-Length: 2\r\n\r\nok", false
+		}, func(resp *vnet.Resp, heads []string) []string {
+			if resp.Status != 200 || resp.Body != "ok" {
+				return []string{fmt.Sprintf("origin-answer-lost: the origin answered the GET (which carried a body) with 200 \"ok\"; the client received %d %q %s", resp.Status, resp.Body, resp.Err)}
+			}
+			return nil
+		}},
+		{"post-answered-416", vnet.H{{"User-Agent", "wire-client/1"}, {"Accept-Encoding", "identity"}}, func(req *http.Request) (string, bool) {
+			return "HTTP/1.1 416 Range Not Satisfiable\r\nCache-Control: no-store\r\nContent-Type: text/plain\r\nContent-Length: 4\r\n\r\nnope", false
+		}, func(resp *vnet.Resp, heads []string) []string {
+			var p []string
+			if resp.Status != 416 || resp.Body != "nope" {
+				p = append(p, fmt.Sprintf("origin-answer-lost: the origin answered the POST (no Range was sent) with 416 \"nope\"; the client received %d %q %s", resp.Status, resp.Body, resp.Err))
+			}
+			if len(heads) != 1 {
+				p = append(p, fmt.Sprintf("request-repeated: a POST without a Range header was sent to the origin %d times", len(heads)))
+			}
+			return p
+		}},
 	}
 	for _, be := range []string{"memory", "file"} {
 		for _, wc := range cases {
 			for _, transport := range []string{"plain", "tunnel"} {
 				c.Case()
-				env := newEnv(envOpts{Backend: be, WithCA: true, Server: true, DefaultMaxAgeS: 3600})
+				env := newEnv(envOpts{Backend: be, WithCA: true, Server: true, DefaultMaxAgeS: 3600, Retry416: true}) // retry_on_range_416 as shipped
 				wo := &vnet.WireOrigin{}
 				answer := wc.answer
 				wo.Answer = func(req *http.Request, head string) (string, bool) { return answer(req) }
@@ -134,11 +159,18 @@ func scenarioWire(c *vrun.Ctx) {
 				if transport == "plain" {
 					target = "http://" + originHost + uri
 				}
-				raw := "GET " + target + " HTTP/1.1\r\nHost: " + originHost + "\r\n"
+				method, body := "GET", ""
+				if mb, ok := wireReq[wc.name]; ok {
+					method, body = mb[0], mb[1]
+				}
+				raw := method + " " + target + " HTTP/1.1\r\nHost: " + originHost + "\r\n"
 				for _, kv := range wc.reqHdrs {
 					raw += kv[0] + ": " + kv[1] + "\r\n"
 				}
-				raw += "\r\n"
+				if body != "" {
+					raw += "Content-Length: " + strconv.Itoa(len(body)) + "\r\n"
+				}
+				raw += "\r\n" + body
 				if transport == "plain" {
 					resp = env.srv.Do(raw)
 				} else {
@@ -156,6 +188,9 @@ func scenarioWire(c *vrun.Ctx) {
 					prop := "C08"
 					if strings.HasPrefix(kind, "truncated") || strings.HasPrefix(kind, "validator") {
 						prop = "C01"
+					}
+					if strings.HasPrefix(kind, "origin-answer-lost") {
+						prop = "C09"
 					}
 					c.SetCase(be + " " + transport + " " + wc.name)
 					c.Violation(prop+"/wire/"+kind+"/"+wc.name+"/"+transport, pr+" | "+be+", "+transport+" transport, upstream heads: "+fmt.Sprintf("%q", wo.Heads), nil)
